@@ -1,3 +1,4 @@
+import Uft.Lemmas.EventsPair
 import Uft.Model.Events
 import Uft.Model.CallTree
 import Uft.Lemmas.Events
@@ -456,5 +457,56 @@ theorem c17_prefix_watch_survives_witness :
         (.cons (.node 3 1300 1400 (obsC 4) (obsC 4) .nil) .nil)))).out =
       [(100011, 1001, [3])] := by
   decide
+
+/-! ### F17e (repaired, `fixPair`): read events and diff events come in pairs -/
+
+/-- For every call of a function with a `read=` trigger, whatever the argument payload, the sources and
+    the readings: the entry hook stores exactly the specified READ events — one per selected source whose
+    reading succeeds, in table order — if the frame's slice has room for them *and* for their DIFF events
+    above the argument data, and nothing otherwise; the exit hook puts exactly the specified DIFF events on
+    top.  Hence every DIFF event has the READ event of its source below it, and every READ event whose
+    source can be read again at exit gets its DIFF event: no unpaired event in either direction. -/
+theorem c17_read_diff_paired (cfg : ECfg) (hfa : cfg.fixArg = true) (hfp : cfg.fixPair = true) (k : Kind)
+    (f t0 t1 d : Nat) (oE oX : Obs) (ht1 : t1 ≠ 0) :
+    (entryFrame cfg k f t0 d oE).evs =
+      (if ReadRoom cfg k f then (specReads t0 (d + 1) oE (cfg.read f) readEvents).reverse else []) ∧
+    (exitFrame cfg (entryFrame cfg k f t0 d oE) t1 d oX).evs =
+      (specDiffs t1 (d + 1) oX (cfg.read f) (entryFrame cfg k f t0 d oE).evs readEvents).reverse ++
+        (entryFrame cfg k f t0 d oE).evs ∧
+    (∀ e ∈ specDiffs t1 (d + 1) oX (cfg.read f) (entryFrame cfg k f t0 d oE).evs readEvents,
+      ∃ s ∈ readEvents, e.id = s.idDiff ∧ ∃ old ∈ (entryFrame cfg k f t0 d oE).evs, old.id = s.idRead) ∧
+    (∀ s ∈ readEvents, (cfg.read f &&& s.bit == 0) = false → ∀ old ∈ (entryFrame cfg k f t0 d oE).evs,
+      old.id = s.idRead → ∀ v, oX.reads s.bit = some v →
+        ∃ e ∈ (exitFrame cfg (entryFrame cfg k f t0 d oE) t1 d oX).evs, e.id = s.idDiff) := by
+  refine ⟨(entryFrame_exact cfg hfa hfp k f t0 d oE).1, exitFrame_exact cfg hfa hfp k f t0 t1 d oE oX ht1, ?_, ?_⟩
+  · intro e he
+    obtain ⟨s, hs, _, old, hold, v, _, rfl⟩ := (mem_specDiffs _ _ _ _ _ _ _).mp he
+    refine ⟨s, hs, rfl, old, List.mem_of_find?_eq_some hold, ?_⟩
+    simpa using List.find?_some hold
+  · intro s hs hsel old hold hid v hv
+    rw [exitFrame_exact cfg hfa hfp k f t0 t1 d oE oX ht1]
+    have hfind : ((entryFrame cfg k f t0 d oE).evs.find? (fun x => x.id == s.idRead)).isSome := by
+      rw [List.find?_isSome]; exact ⟨old, hold, by simpa using hid⟩
+    obtain ⟨old', hold'⟩ := Option.isSome_iff_exists.mp hfind
+    refine ⟨diffEvOf t1 (d + 1) s v old', ?_, rfl⟩
+    rw [List.mem_append, List.mem_reverse]
+    exact Or.inl ((mem_specDiffs _ _ _ _ _ _ _).mpr ⟨s, hs, hsel, old', hold', v, hv, rfl⟩)
+
+/-- `f1@read=page-fault` together with `-A f1@arg1/t960` (a 960-byte struct): 4 + 960 bytes of argument
+    data leave 60 bytes of the 1024-byte slice — room for one 32-byte event, not for two -/
+def cfgPair (fix : Bool) : ECfg :=
+  { read := fun f => if f = 1 then 2 else 0, argSize := fun f => if f = 1 then some 960 else none, fixPair := fix }
+
+/-- F17e: as coded the READ event is stored at entry and the DIFF event silently dropped at exit (an
+    unpaired `read:page-fault` in the trace); repaired, neither is stored. -/
+theorem c17_prefix_unpaired_read_witness :
+    evsOf (runECall (cfgPair false) .pg (ESt.init (cfgPair false) [] []) (.node 1 1010 1030 (obsRU 5 100) (obsRU 8 150) .nil)).out =
+      [(100002, 1010, [5, 100])] ∧
+    evsOf (runECall (cfgPair true) .pg (ESt.init (cfgPair true) [] []) (.node 1 1010 1030 (obsRU 5 100) (obsRU 8 150) .nil)).out =
+      [] := by
+  decide
+
+/-- non-vacuity of `c17_read_diff_paired`: with a 900-byte payload there is room and the pair is written -/
+example : ReadRoom (cfgPair true |> fun c => { c with argSize := fun f => if f = 1 then some 900 else none }) .pg 1 := by decide
 
 end Uft.C17
